@@ -2,6 +2,7 @@ import WacModel.Spec.Plug
 import WacProofs.Lemmas.Plug2
 import WacProofs.Lemmas.Plug3
 import WacProofs.Lemmas.Plug4
+import WacProofs.Lemmas.Plug5
 /-
   C10 — plugging.
 
@@ -11,11 +12,11 @@ import WacProofs.Lemmas.Plug4
   Status of the theorems planned in DESIGN §7:
     proved here   matching_is_spec, plug_preserves_inv, two_offers_fail,
                   idle_plug_not_instantiated, no_plug_iff (no_offer_no_plug, no_plug_no_offer),
-                  socket_exports_reexported, expected_no_plugs
-    partial       plug_supplies_matches and unmatched_stay_imports are not theorems yet: they are
-                  clauses (1) and (2) of the executable post-condition `plugPost`, evaluated by the
-                  driver on the graph the *implementation* reports for every generated case (SPEC)
-                  and on the model (MODEL).  plug_encodes_valid needs the encoder model (C01–C03);
+                  socket_exports_reexported, plug_supplies_matches, expected_no_plugs
+    partial       unmatched_stay_imports ("nothing but the offers is passed", joins C03) is not a
+                  theorem yet: it is clause (1')/(2) of the executable post-condition `plugPost`,
+                  evaluated by the driver on the graph the *implementation* reports for every
+                  generated case (SPEC) and on the model (MODEL).  plug_encodes_valid needs the encoder model (C01–C03);
                   the harness checks it per case with the wasmparser validator.
 -/
 namespace Wac.Props.C10
@@ -273,5 +274,125 @@ theorem socket_exports_reexported (ctx : Ctx) (g : Graph) (h : Inv ctx g) (plugs
 -- non-vacuity: a socket with an export
 example : getExport (plug ctxP (run ctxP {} [.register plugP, .register ⟨['t'], none, [(['a'], 0)], 2⟩]).1
     [⟨0, 0⟩] ⟨1, 0⟩).1 ['a'] = some 3 := by decide
+
+/-- `plug_supplies_matches`: after a successful `plug` there is a new instantiation `si` of the
+    socket package such that every offer `(socket import, plug export)` of every plug (the
+    specification's `offers`: same name, failing that the first semver-compatible import, kept iff
+    the subtype verdict holds) is supplied: an instantiation `pi` of that plug, the alias `a` of
+    that very export of `pi`, and the argument edge from `a` to `si` at the index of that very
+    import -/
+theorem plug_supplies_matches (ctx : Ctx) (g : Graph) (h : Inv ctx g) (plugs : List PkgId) (socket : PkgId)
+    (socketD : PkgDef) (hs : g.pkgOf socket = .ok socketD) (hok : (plug ctx g plugs socket).2 = .ok) :
+    ∃ si, g.node? si = none ∧ InstOf (plug ctx g plugs socket).1 si socket ∧
+      ∀ p ∈ plugs, ∀ plugD, g.pkgOf p = .ok plugD → ∀ o ∈ offers ctx socketD plugD,
+        ∃ pi a j idx k k', InstOf (plug ctx g plugs socket).1 pi p ∧
+          alFull (ctx.pkgExports plugD) o.2 = some (j, k) ∧ alFull socketD.imports o.1 = some (idx, k') ∧
+          (⟨pi, a, .alias j⟩ : Edge) ∈ (plug ctx g plugs socket).1.edges ∧
+          (⟨a, si, .arg idx⟩ : Edge) ∈ (plug ctx g plugs socket).1.edges := by
+  have hinv' := plug_inv h plugs socket
+  cases hres : plug ctx g plugs socket with
+  | mk g' out =>
+    rw [hres] at hok hinv'
+    simp only at hok hinv' ⊢
+    subst hok
+    unfold plug at hres
+    rw [hs] at hres
+    simp only at hres
+    have hi : instantiate g socket =
+        ((g.addNode ⟨.instantiation [], some socket, socketD.instKind, none, none⟩).1,
+         .ok (.node (g.addNode ⟨.instantiation [], some socket, socketD.instKind, none, none⟩).2)) := by
+      unfold instantiate
+      rw [hs]
+    have hinv1 : Inv ctx (g.addNode ⟨.instantiation [], some socket, socketD.instKind, none, none⟩).1 :=
+      inv_instantiate h hi
+    have a := added_of_addNode h ⟨.instantiation [], some socket, socketD.instKind, none, none⟩
+    rw [hi] at hres
+    simp only at hres
+    generalize (g.addNode ⟨.instantiation [], some socket, socketD.instKind, none, none⟩).1 = g1 at hres hinv1 a
+    generalize (g.addNode ⟨.instantiation [], some socket, socketD.instKind, none, none⟩).2 = si at hres a
+    cases hpa : plugAll ctx si socketD plugs g1 with
+    | mk g2 o =>
+      rw [hpa] at hres
+      cases o with
+      | some o' =>
+        simp only [Prod.mk.injEq] at hres
+        have := plugAll_some si socketD plugs g1 g2 o' hpa
+        rw [hres.2] at this
+        cases this
+      | none =>
+        simp only at hres
+        have hinv2 : Inv ctx g2 := plugAll_inv si socketD plugs g1 g2 none hinv1 hpa
+        have k12 := plugAll_keeps si socketD plugs g1 g2 none hinv1 hpa
+        have hsup := plugAll_spec si socketD plugs g1 g2 hinv1 hpa
+        cases hga : getInstantiationArguments g2 si with
+        | error s => rw [hga] at hres; simp at hres
+        | ok l =>
+          rw [hga] at hres
+          cases l with
+          | nil => simp at hres
+          | cons x r =>
+            simp only at hres
+            cases hex : exportSocket ctx si ((ctx.pkgExports socketD).map (·.1)) g2 with
+            | mk g3 o3 =>
+              rw [hex] at hres
+              cases o3 with
+              | some o'' =>
+                simp only [Prod.mk.injEq] at hres
+                have := exportSocket_some si _ g2 g3 o'' hex
+                rw [hres.2] at this
+                cases this
+              | none =>
+                simp only [Prod.mk.injEq, and_true] at hres
+                subst hres
+                obtain ⟨k23, _⟩ := exportSocket_spec si _ g2 g3 hinv2 hex
+                have k13 := k12.trans k23
+                have hpk : g3.pkgs = g.pkgs := k13.pkgs.trans a.pkgs
+                have hsi : InstOf g3 si socket := (InstOf.mono ⟨_, a.new, rfl, rfl⟩ k13)
+                refine ⟨si, a.fresh, hsi, ?_⟩
+                intro p hp plugD hpd o ho
+                have hmem : (o.2, o.1) ∈ plugExports ctx plugD socketD := by
+                  rw [plugExports_eq_offers]
+                  exact List.mem_map_of_mem (f := fun p : Str × Str => (p.2, p.1)) ho
+                obtain ⟨pi, al, j, idx, hpi, hai, hargi, he1, he2⟩ :=
+                  (hsup p hp plugD (by rw [pkgOf_congr a.pkgs]; exact hpd) _ hmem).mono k23
+                simp only at hai hargi
+                -- the export index is that of the plug's export list
+                obtain ⟨x, exps, k, hx, hexps, hfull⟩ := hai
+                obtain ⟨x', hx', hinst, hpkg⟩ := hpi
+                rw [hx] at hx'
+                cases hx'
+                have hitem : x.item = plugD.instKind := by
+                  have h2 := (hinv'.node hx).2.1
+                  unfold Node.isInst at hinst
+                  cases hk : x.kind with
+                  | instantiation sat =>
+                    rw [hk] at h2
+                    simp only at h2
+                    obtain ⟨_, _, pid, hpid, pd, hpd', hit⟩ := h2
+                    rw [Option.mem_def, hpkg] at hpid
+                    cases hpid
+                    have := toOption_mem.mp hpd'
+                    rw [pkgOf_congr hpk, hpd] at this
+                    cases this
+                    exact hit
+                  | definition ty => simp [hk] at hinst
+                  | «import» nm => simp [hk] at hinst
+                  | «alias» => simp [hk] at hinst
+                have hpe : ctx.pkgExports plugD = exps := by
+                  unfold Ctx.pkgExports
+                  rw [← hitem, hexps]; rfl
+                -- the import index is that of the socket's import list
+                obtain ⟨y, pid, d, k', hy, hypkg, hd, hfull'⟩ := hargi
+                obtain ⟨y', hy', _, hpkg'⟩ := hsi
+                rw [hy] at hy'
+                cases hy'
+                rw [hpkg'] at hypkg
+                cases hypkg
+                have hd' : d = socketD := by
+                  have := pkgAt_of_pkgOf hs
+                  rw [pkgAt_congr hpk, this] at hd
+                  cases hd; rfl
+                subst hd'
+                exact ⟨pi, al, j, idx, k, k', ⟨x, hx, hinst, hpkg⟩, by rw [hpe]; exact hfull, hfull', he1, he2⟩
 
 end Wac.Props.C10
